@@ -138,7 +138,12 @@ class UniqueItemsConstraint(Constraint):
         assert self.unique
 
     def validate(self, data: Any) -> bool:
-        return len(set(map(to_hashable, data))) == len(data)
+        try:
+            return len(set(map(to_hashable, data))) == len(data)
+        except TypeError:  # unhashable items or unsortable keys (not JSON-like data)
+            return not any(
+                data[i] == data[j] for i in range(len(data)) for j in range(i)
+            )
 
 
 @dataclass
